@@ -1325,8 +1325,7 @@ int main(int argc, char **argv)
 	rep.counters["accepted_as_required"] = tally.mustaccept;
 	rep.counters["equivalent_recorded_accepted"] = tally.equiv_accepted;
 	rep.counters["equivalent_recorded_refused"] = tally.equiv_refused;
-	rep.counters["keys_generated"] = pool.size();
-	rep.counters["stage_counts_x1000000"] = MINS[0] * 1000000 + MINS[1] * 1000 + MINS[2];
+	rep.counters["key_generations"] = pool.size();   // per shard; summed over shards by check
 	unsigned shown = 0;
 	for (std::map<std::string, uint64_t>::iterator i = tally.equiv_names.begin(); i != tally.equiv_names.end() && shown < 40; ++i, ++shown)
 		rep.counters["equiv/" + i->first] = i->second;
